@@ -45,8 +45,13 @@ ASSUMPTIONS = [
     "about periodic axes); Robin conditions with |2 + gamma*dx| < 0.1 are excluded",
     "corner ghost cells (points in the boundary strip of two or more axes, with BC): the documented "
     "'corner cells are set using interpolation' is restated as the mean of the adjacent ghost cells",
-    "make_inserter(with_ghost_cells=True): only points whose 2^d neighbours are all valid cells "
-    "('coordinates are used as is' - near a face part of the amount legitimately goes to ghost cells)",
+    "make_inserter(with_ghost_cells=True): only points whose 2^d neighbours are all valid cells, i.e. "
+    "0 <= cell coordinate < n-1 on non-periodic axes ('coordinates are used as is' - near a face part "
+    "of the amount goes to ghost cells, which have no cell volume; on curvilinear grids points at or "
+    "behind the centre of the last cell raise IndexError - weights into ghost cells are outside the "
+    "statement)",
+    "vector fields converted to Cartesian grids with a non-zero fill value: known finding "
+    "C16:vector-to-cartesian:fill-value-rotated (dedicated sub-check to_cartesian_fill)",
     "inserted points lie inside the domain",
 ]
 EPS = float(np.finfo(float).eps)
@@ -632,7 +637,7 @@ def check_approach(case):
         warnings.simplefilter("ignore", DeprecationWarning)
         bv_pkg = np.array(field.get_boundary_values(a, upper, bc=bc_obj))
     ref, unc = reference_padded(bc, gspec, data_full, dtype)
-    g, c1, _ = gb.face_arrays(ref, gspec, a, upper)
+    g, c1, c2 = gb.face_arrays(ref, gspec, a, upper)
     ug = unc[gb.face_index(nax, ref.ndim - nax, a, -1 if upper else 0)]
     G, bG = transverse(g, ug)
     C, bC = transverse(c1)
@@ -661,6 +666,9 @@ def check_approach(case):
     # positions approaching the face from inside: the values lie on the straight line from the
     # boundary value (as reported by get_boundary_values) to the value of the first cell
     fracs = [0.5, 0.25, 0.125, 2.0**-10, 1e-6]
+    near = transverse(np.abs(c1))[0] + transverse(np.abs(g))[0]
+    if c2 is not None:
+        near = near + transverse(np.abs(c2))[0]
     for fr in fracs:
         s = fr * dx
         p = list(base)
@@ -673,8 +681,10 @@ def check_approach(case):
                             f"({'upper' if upper else 'lower'}) of {glabel} rejected as outside",
                             key=f"approach:inside-rejected:{gspec['cls']}") from None
         want = B_pkg + (C - B_pkg) * (2 * s_eff / dx)
+        # the position along the axis is resolved to `pos` cells only; at the cell centre the rounded
+        # position may even lie on the far side (towards the second cell)
         pos = 16 * EPS * (abs(lo) + abs(hi) + abs(dx)) / dx
-        tol = 2 * tol0 + 2 * pos * (np.abs(C - B_pkg) + tol0) + 64 * EPS * np.abs(want)
+        tol = 2 * tol0 + 2 * pos * (np.abs(C - B_pkg) + tol0 + near) + 64 * EPS * np.abs(want)
         err = np.abs(v - want)
         if np.shape(v) != np.shape(want) or not np.all(err <= tol):
             raise Violation(
